@@ -2,12 +2,19 @@ use crate::driver::{run_check, run_replay, Tier};
 
 pub mod common;
 pub mod c01;
+pub mod c02;
+pub mod c03;
+pub mod c04;
+pub mod spans;
 pub mod c05;
 pub mod c06;
 
 pub fn dispatch_check(id: &str, tier: Tier, seed: u64) -> i32 {
     match id {
         "C01" => run_check(&c01::C01, tier, seed),
+        "C02" => run_check(&c02::C02, tier, seed),
+        "C03" => run_check(&c03::C03, tier, seed),
+        "C04" => run_check(&c04::C04, tier, seed),
         "C05" => run_check(&c05::C05, tier, seed),
         "C06" => run_check(&c06::C06, tier, seed),
         _ => {
@@ -20,6 +27,9 @@ pub fn dispatch_check(id: &str, tier: Tier, seed: u64) -> i32 {
 pub fn dispatch_replay(id: &str, file: &str) -> i32 {
     match id {
         "C01" => run_replay(&c01::C01, file),
+        "C02" => run_replay(&c02::C02, file),
+        "C03" => run_replay(&c03::C03, file),
+        "C04" => run_replay(&c04::C04, file),
         "C05" => run_replay(&c05::C05, file),
         "C06" => run_replay(&c06::C06, file),
         _ => {
